@@ -105,10 +105,14 @@ pub fn c01(ctx: &Ctx) -> PropResult {
     for src in crate::props6::spelled_values_family() {
         cases.push(run_case(src, "spelled-values"));
     }
+    // (appended) fractional indexes just below and just above a whole number
+    for src in crate::props6::near_integer_index_family() {
+        cases.push(run_case(src, "near-integer-index"));
+    }
     let stats = run_cases(&ctx.driver, cases, &no_panic_oracle, &no_known, ctx.threads);
     PropResult {
         stats,
-        rule: format!("exhaustive operator table: 13 binary/logical operators x {0}x{0} operand exemplars (0, -0, 1, -1, fractions, 2^53+1, 1e308, inf, -inf, NaN, strings incl. non-ASCII, TRUE, FALSE, NULL, empty/one-element/nested lists, native object) and 2 unary operators x {0}; random expression trees to depth 5 (thorough 7) over literals, variables, assignment, indexing, indexed assignment, list literals, calls, with a probe procedure that displays a tag at operands; compared: output bytes, end class, error span; non-trivial = the run ended normally or with a runtime error; operands that change the length of the list another operand addresses; list + over 13 x 13 kinds of operand expression; every value class as the condition of REPEAT UNTIL (sequences false, false, true), IF, ELSE IF, NOT, AND, OR; numbers next to each other at eleven magnitudes x ten distances under == != <= >= <; texts that spell a value of another type against that value", EXEMPLARS.len()),
+        rule: format!("exhaustive operator table: 13 binary/logical operators x {0}x{0} operand exemplars (0, -0, 1, -1, fractions, 2^53+1, 1e308, inf, -inf, NaN, strings incl. non-ASCII, TRUE, FALSE, NULL, empty/one-element/nested lists, native object) and 2 unary operators x {0}; random expression trees to depth 5 (thorough 7) over literals, variables, assignment, indexing, indexed assignment, list literals, calls, with a probe procedure that displays a tag at operands; compared: output bytes, end class, error span; non-trivial = the run ended normally or with a runtime error; operands that change the length of the list another operand addresses; list + over 13 x 13 kinds of operand expression; every value class as the condition of REPEAT UNTIL (sequences false, false, true), IF, ELSE IF, NOT, AND, OR; numbers next to each other at eleven magnitudes x ten distances under == != <= >= <; texts that spell a value of another type against that value; fractional indexes just below and above whole numbers", EXEMPLARS.len()),
         exhaustive: false,
         notes: vec![],
     }
@@ -454,10 +458,14 @@ pub fn c02(ctx: &Ctx) -> PropResult {
     for src in crate::props6::for_each_list_of_lists_family() {
         cases.push(run_case(src, "for-each-list-of-lists"));
     }
+    // (appended) REPEAT with an infinite count, left by BREAK / RETURN
+    for src in crate::props6::infinite_repeat_family() {
+        cases.push(run_case(src, "infinite-repeat"));
+    }
     let stats = run_cases(&ctx.driver, cases, &newline_twin_oracle, &no_known, ctx.threads);
     PropResult {
         stats,
-        rule: "random control-flow skeletons (depth <= 3, <= 3 statements per block; IF/ELSE over 10 condition values incl. 0, -0, NULL, \"\", []; REPEAT TIMES with counts 0, 1, 2, 3, 2.7, -1, 0.99, variable; REPEAT UNTIL; FOR EACH over lists and strings incl. non-ASCII and an outer variable of the same name; BREAK/CONTINUE wherever a loop encloses) with a DISPLAY probe per statement; BREAK/CONTINUE at every position of a three-statement body of every loop form, bare and guarded, alone and nested; random general programs; non-trivial = ended normally or with a runtime error; every falsy and truthy value class as a condition REPEAT UNTIL re-tests, and under IF / unbraced IF / ELSE IF / NOT / AND / OR, directly, through a procedure and through an assignment; a callee's loop variable named like a variable of the caller; brace-less branches followed by ELSE on the same line and brace-less bodies at the very end of the input; every kind of value as the count of REPEAT n TIMES; nesting depths 1 .. 200 and chains of 1 .. 300 parts, run; FOR EACH over lists of lists with every ending and outer variables of the loop variable's name".into(),
+        rule: "random control-flow skeletons (depth <= 3, <= 3 statements per block; IF/ELSE over 10 condition values incl. 0, -0, NULL, \"\", []; REPEAT TIMES with counts 0, 1, 2, 3, 2.7, -1, 0.99, variable; REPEAT UNTIL; FOR EACH over lists and strings incl. non-ASCII and an outer variable of the same name; BREAK/CONTINUE wherever a loop encloses) with a DISPLAY probe per statement; BREAK/CONTINUE at every position of a three-statement body of every loop form, bare and guarded, alone and nested; random general programs; non-trivial = ended normally or with a runtime error; every falsy and truthy value class as a condition REPEAT UNTIL re-tests, and under IF / unbraced IF / ELSE IF / NOT / AND / OR, directly, through a procedure and through an assignment; a callee's loop variable named like a variable of the caller; brace-less branches followed by ELSE on the same line and brace-less bodies at the very end of the input; every kind of value as the count of REPEAT n TIMES; nesting depths 1 .. 200 and chains of 1 .. 300 parts, run; FOR EACH over lists of lists with every ending and outer variables of the loop variable's name; REPEAT with an infinite count left by BREAK / RETURN".into(),
         exhaustive: false,
         notes: vec![],
     }
@@ -634,10 +642,14 @@ pub fn c03(ctx: &Ctx) -> PropResult {
     for src in crate::props6::unbraced_continuation_family() {
         cases.push(run_case(src, "unbraced-continuation"));
     }
+    // (appended) library procedures called without their import: undefined procedures like any other
+    for src in crate::props6::unimported_library_calls(&crate::extract::registry()) {
+        cases.push(run_case(src, "unimported-library-call"));
+    }
     let stats = run_cases(&ctx.driver, cases, &newline_twin_oracle, &no_known, ctx.threads);
     PropResult {
         stats,
-        rule: "random programs with 1-3 procedures (0-3 parameters, bodies with nested IF / all three loops / RETURN valued or bare / recursion), calls nested in expressions, argument counts off by one, undefined names; RETURN (valued, bare, with expression, absent) at each of 3 positions inside 6 nesting wrappers followed by probes; fixed scenarios for recursion, mutual recursion, scope isolation in both directions, by-value / by-reference, argument order; non-trivial = ended normally or with a runtime error; every parameter count in 0..3, 254..256 against argument counts 0..4, 253..257, 511, 512; bodies of one statement without braces (and their braced twins) touching names of the caller; eleven ways to get a list back from a procedure x six operations through the result / the original; empty bodies in six forms with parameters named like the caller's variables; the same list for two or three parameters of one call; a callee's loop variable named like a variable of the caller; brace-less branches followed by ELSE on the same or the next line".into(),
+        rule: "random programs with 1-3 procedures (0-3 parameters, bodies with nested IF / all three loops / RETURN valued or bare / recursion), calls nested in expressions, argument counts off by one, undefined names; RETURN (valued, bare, with expression, absent) at each of 3 positions inside 6 nesting wrappers followed by probes; fixed scenarios for recursion, mutual recursion, scope isolation in both directions, by-value / by-reference, argument order; non-trivial = ended normally or with a runtime error; every parameter count in 0..3, 254..256 against argument counts 0..4, 253..257, 511, 512; bodies of one statement without braces (and their braced twins) touching names of the caller; eleven ways to get a list back from a procedure x six operations through the result / the original; empty bodies in six forms with parameters named like the caller's variables; the same list for two or three parameters of one call; a callee's loop variable named like a variable of the caller; brace-less branches followed by ELSE on the same or the next line; every library procedure called without its import".into(),
         exhaustive: false,
         notes: vec![],
     }
